@@ -19,7 +19,7 @@ PRODUCERS = [q for q, (_, role) in O.QUERIES.items() if role == "P"]
 CONSUMERS = [q for q, (_, role) in O.QUERIES.items() if role in ("C", "X")]
 EXPORTS = [q for q, (_, role) in O.QUERIES.items() if role == "X"]
 ISOLATED_SHARE = 0.25
-FORK_OPS = ["deepcopy", "deepcopy", "pickle", "pickle", "reload", "reload", "derive_P1", "derive_cif", "derive_res", "derive_supercell", "derive_from_molecule", "stranger", "stranger", "stranger_kw", "stranger_kw", "other", "other", "sibling", "sibling", "derive_cifdata", "drop"]
+FORK_OPS = ["deepcopy", "deepcopy", "pickle", "pickle", "reload", "reload", "derive_P1", "derive_cif", "derive_res", "derive_supercell", "derive_from_molecule", "stranger", "stranger", "stranger_kw", "stranger_kw", "other", "other", "heavy", "sibling", "sibling", "derive_cifdata", "drop"]
 RADII = [1.5, 3.0, 3.8, 6.0, 9.0]
 BOUNDS = [
     [[-1, -1, -1], [1, 1, 1]],
@@ -487,7 +487,7 @@ def big_run(verif_seed, index, stratum="big"):
 
 # ------------------------------------------- three-object fork patterns
 FORK3_FIRST = [None, "uc_mols", "sym_mols"]
-FORK3_KINDS = [("deepcopy", "deepcopy"), ("deepcopy", "pickle"), ("pickle", "deepcopy"), ("deepcopy", "reload"), ("stranger", "deepcopy"), ("other", "deepcopy"), ("sibling", "deepcopy"), ("derive_cifdata", "deepcopy")]
+FORK3_KINDS = [("deepcopy", "deepcopy"), ("deepcopy", "pickle"), ("pickle", "deepcopy"), ("deepcopy", "reload"), ("stranger", "deepcopy"), ("other", "deepcopy"), ("sibling", "deepcopy"), ("derive_cifdata", "deepcopy"), ("heavy", "deepcopy")]
 FORK3_TOPOLOGY = ["star", "chain"]  # both copies of h0 / copy of a copy
 FORK3_ORDER = [(0, 1), (1, 0), (0, 2), (2, 0), (1, 2), (2, 1)]  # which two handles are switched, in order
 FORK3_SOURCES = [
